@@ -6,7 +6,7 @@ R1  TLC exhaustive: FsProtocol.tla with PowerFail (volatile view reverts to the 
     anywhere between two system calls of the publish protocols: no partial file under a final name in the durable
     view, every acknowledged sync stays restorable, R2 (except the modelled D1 hazard), R3. The as-is model must
     reproduce D1 (MC_FsProtocol_power_d1.cfg) and the repaired protocol must satisfy R2 (…_fixed.cfg).
-R2  histories = scenario catalogue S1 S3 S4 S5 S6 S7 S9 (quick: S1 S3 S5 S7 S9), seeded (page size, rows, payload).
+R2  histories = scenario catalogue S1 S2 S3 S4 S5 S6 S7 S9 (quick: S1 S2 S3 S5 S7 S9; S2 = chunked catch-up, MaxSyncWALBytes = 3 frames), seeded (page size, rows, payload).
 R3  each scenario runs as a real process (harness/cmd/scen: real SQLite + real litestream) under
     `strace -f -y`; tools/strace2ndjson.py projects the trace to create/write/fsync/rename/unlink/mark events and
     FsTraceObs.tla judges R1/R2/R3 at every rename / Mark(op ok) / unlink of the REAL trace.
@@ -17,8 +17,8 @@ import vlib
 import strace2ndjson
 
 PROP = "C11"
-QUICK = ["S1", "S3", "S5", "S7", "S9"]
-ALL = ["S1", "S3", "S4", "S5", "S6", "S7", "S9"]
+QUICK = ["S1", "S2", "S3", "S5", "S7", "S9"]
+ALL = ["S1", "S2", "S3", "S4", "S5", "S6", "S7", "S9"]
 TRACE = ("openat,open,creat,write,pwrite64,writev,pwritev,pwritev2,fsync,fdatasync,rename,renameat,renameat2,"
          "unlink,unlinkat,copy_file_range,sendfile,splice,ftruncate,fallocate")
 
